@@ -1,10 +1,12 @@
 import Varpulis.Lemmas.Zdd
+import Varpulis.Lemmas.ZddTable
 /-!
 # C07 — canonicity, reducedness, ordering, iteration order; gc
 
 Tree layer: a handle is modelled by the tree it denotes, so "same root" is tree equality.
-`gc` is the identity on trees (it rebuilds the same triples in a fresh table); that the
-real table realises this is checked on dumped tables by the Judge (`Driver/Zdd.lean: judgeDump`).
+Table layer (`Model/ZddTable.lean`): the `Vec` of nodes with `get_or_create`, `treeOf : Table → Ref → Z`
+and the invariant `TWF`; the statements of C07 are theorems about that table model, and the judge
+that inspects dumped tables of the real arena (`judgeTable`) is proved sound w.r.t. them.
 -/
 namespace Varpulis.Props.C07
 open Varpulis.Zdd
@@ -40,5 +42,106 @@ theorem reduced_nonempty (a : Z) (ra : Red a) (h : a ≠ .empty) : sets a ≠ []
 
 example : Ord 0 (union (fromSet [0, 2]) (fromSet [1])) ∧ Red (union (fromSet [0, 2]) (fromSet [1])) := by
   simp [union, fromSet, normalize, insertSorted, fromSorted, mk, Zdd.Ord, Red]
+
+/-! ## Table layer: the hash-consed node table -/
+section Table
+open Varpulis.ZddT
+
+/-- the empty arena is well-formed -/
+theorem empty_table_TWF : TWF #[] := twf_empty
+
+/-- `get_or_create` denotes `Zdd.mk` (zero-suppression rule) of the children's trees -/
+theorem treeOf_getOrCreate (t : Table) (h : TWF t) (v : Nat) (lo hi : Ref) (hlo : Valid t lo) (hhi : Valid t hi) :
+    treeOf (getOrCreate t v lo hi).1 (getOrCreate t v lo hi).2 = Zdd.mk v (treeOf t lo) (treeOf t hi) :=
+  tree_getOrCreate h.toBelow hlo hhi
+
+/-- `get_or_create` only appends: every stored node keeps its id, the returned ref is dereferenceable -/
+theorem getOrCreate_only_appends (t : Table) (v : Nat) (lo hi : Ref) (hlo : Valid t lo) :
+    Ext t (getOrCreate t v lo hi).1 ∧ Valid (getOrCreate t v lo hi).1 (getOrCreate t v lo hi).2 :=
+  ⟨getOrCreate_ext t v lo hi, getOrCreate_valid hlo⟩
+
+/-- appending never changes the tree of an existing ref (the argument written in the comment of
+`ZddArena::invalidate_caches`) -/
+theorem treeOf_stable (t t' : Table) (h : TWF t) (hx : Ext t t') (r : Ref) (hv : Valid t r) :
+    treeOf t' r = treeOf t r := tree_stable h.toBelow hx hv
+
+/-- `get_or_create` preserves the table invariant when the new variable is below both children
+(which every caller guarantees: `Ord (v+1)` of the children's trees) -/
+theorem getOrCreate_preserves_TWF (t : Table) (h : TWF t) (v : Nat) (lo hi : Ref) (hlo : Valid t lo) (hhi : Valid t hi)
+    (olo : Ord (v + 1) (treeOf t lo)) (ohi : Ord (v + 1) (treeOf t hi)) : TWF (getOrCreate t v lo hi).1 :=
+  twf_getOrCreate h hlo hhi olo ohi
+
+/-- every stored node is reduced with strictly increasing variables along every path:
+the tree of every valid ref is `Ord` and `Red` -/
+theorem stored_nodes_reduced_ordered (t : Table) (h : TWF t) (r : Ref) (hv : Valid t r) :
+    Ord 0 (treeOf t r) ∧ Red (treeOf t r) := ⟨tree_ord h hv, tree_red h hv⟩
+
+/-- canonicity of the unique table: `treeOf` is injective on valid refs -/
+theorem treeOf_inj (t : Table) (h : TWF t) (a b : Ref) (ha : Valid t a) (hb : Valid t b)
+    (heq : treeOf t a = treeOf t b) : a = b := tree_inj h ha hb heq
+
+/-- **two ZDDs in the same arena that denote the same family have the same root** -/
+theorem same_family_same_root (t : Table) (h : TWF t) (a b : Ref) (ha : Valid t a) (hb : Valid t b)
+    (hs : ∀ s, s ∈ sets (treeOf t a) ↔ s ∈ sets (treeOf t b)) : a = b := same_family_same_ref h ha hb hs
+
+/-- the executable well-formedness check run on dumped tables decides `TWF` -/
+theorem twf_decides_TWF (t : Table) : twf t = true ↔ TWF t := twf_iff
+
+/-- soundness of the judge that inspects the dumped node table of the real arena -/
+theorem judgeTable_sound (t : Table) (regs : List (Nat × Ref)) (model : Nat → Z)
+    (h : judgeTable t regs model = .ok) :
+    TWF t ∧ (∀ p ∈ regs, Valid t p.2 ∧ treeOf t p.2 = model p.1) ∧
+    (∀ p ∈ regs, ∀ q ∈ regs, (p.2 = q.2 ↔ ∀ s, s ∈ sets (model p.1) ↔ s ∈ sets (model q.1))) := judge_sound h
+
+/-! ### garbage collection (`ZddArena::gc`, `gc_caches_only`) -/
+
+/-- the arena invariant: `TWF` table and every entry of the four persistent caches correct w.r.t. `treeOf` -/
+theorem arena_invariant_initial : Arena.OK {} := Arena.ok_empty
+
+/-- **Garbage collection returns handles that denote exactly the families the live handles denoted before**;
+it cannot panic or diverge (`some`), the compacted table is well-formed, and all four caches are empty
+(so no entry can refer to an id of the old table). -/
+theorem gc_preserves (s : Arena) (h : TWF s.table) (live : List Ref) (hl : ∀ r ∈ live, Valid s.table r) :
+    ∃ s' roots, s.gc live = some (s', roots) ∧ s'.OK ∧ roots.length = live.length ∧
+      (∀ p ∈ live.zip roots, Valid s'.table p.2 ∧ treeOf s'.table p.2 = treeOf s.table p.1) ∧
+      s'.ucache = [] ∧ s'.icache = [] ∧ s'.dcache = [] ∧ s'.ccache = [] := gc_spec h hl
+
+/-- `gc_caches_only` keeps the table (hence every handle and its family) and the invariant -/
+theorem gc_caches_only_preserves (s : Arena) (h : s.OK) :
+    (s.gcCachesOnly).OK ∧ (s.gcCachesOnly).table = s.table ∧
+      (s.gcCachesOnly).ucache = [] ∧ (s.gcCachesOnly).icache = [] ∧ (s.gcCachesOnly).dcache = [] ∧
+      (s.gcCachesOnly).ccache = [] := gcCachesOnly_spec h
+
+/-- every arena operation keeps the invariant (`TWF` table + correct caches), whatever it returns -/
+theorem arena_operations_preserve_invariant (s : Arena) (hs : s.OK) (a b : Ref) (ha : Valid s.table a)
+    (hb : Valid s.table b) (v : Nat) (l : List Nat) :
+    (∀ s' r, s.union a b = some (s', r) → s'.OK) ∧ (∀ s' r, s.inter a b = some (s', r) → s'.OK) ∧
+    (∀ s' r, s.diff a b = some (s', r) → s'.OK) ∧ (∀ s' r, s.pwo a v = some (s', r) → s'.OK) ∧
+    (∀ s' k, s.count a = some (s', k) → s'.OK) ∧ (s.singleton v).1.OK ∧ (s.fromSet l).1.OK := by
+  refine ⟨?_, ?_, ?_, ?_, ?_, (Arena.singleton_spec hs v).1, (Arena.fromSet_spec hs l).1⟩
+  · intro s' r h; obtain ⟨s'', r'', e, ok, _⟩ := Arena.union_spec hs ha hb; rw [e] at h; cases h; exact ok
+  · intro s' r h; obtain ⟨s'', r'', e, ok, _⟩ := Arena.inter_spec hs ha hb; rw [e] at h; cases h; exact ok
+  · intro s' r h; obtain ⟨s'', r'', e, ok, _⟩ := Arena.diff_spec hs ha hb; rw [e] at h; cases h; exact ok
+  · intro s' r h; obtain ⟨s'', r'', e, ok, _⟩ := Arena.pwo_spec hs ha v; rw [e] at h; cases h; exact ok
+  · intro s' k h; obtain ⟨s'', e, ok, _⟩ := Arena.count_spec hs ha; rw [e] at h; cases h; exact ok
+
+/-- iteration over a handle of a well-formed table yields each member once, elements ascending
+(`sets (treeOf t r)` is the sequence `ArenaIterator` yields: lo branch before hi branch) -/
+theorem arena_iteration_once_ascending (t : Table) (h : TWF t) (r : Ref) (hv : Valid t r) :
+    (sets (treeOf t r)).Nodup ∧ ∀ s ∈ sets (treeOf t r), s.Pairwise (· < ·) :=
+  ⟨sets_nodup (tree_ord h hv), fun _ hs => (mem_sorted (tree_ord h hv) hs).1⟩
+
+/-- the judge's pairwise test "same family ⇔ same handle" can never fire once the table is well-formed
+and the handles denote the model trees: canonicity is a theorem, not an observation -/
+theorem judge_canonicity_test_redundant (t : Table) (regs : List (Nat × Ref)) (model : Nat → Z) :
+    judgeTable t regs model ≠ .notCanonical := judge_never_notCanonical t regs model
+
+/-- non-vacuity: a three-node table ({{1},{0,1}} and {{1}}) is well-formed and accepted by the judge -/
+example : TWF #[⟨1, .E, .B⟩, ⟨0, .N 0, .N 0⟩] ∧
+    judgeTable #[⟨1, .E, .B⟩, ⟨0, .N 0, .N 0⟩] [(0, .N 1), (1, .N 0)]
+      (fun r => if r = 0 then pwo (fromSet [1]) 0 else fromSet [1]) = .ok := by
+  refine ⟨twf_iff.1 (by decide), by decide⟩
+
+end Table
 
 end Varpulis.Props.C07
